@@ -5,6 +5,7 @@ import sys
 
 from . import common as C
 from . import c02_tables as T
+from . import c02_types as TY
 
 META = {
     "title": "Dense and readable generators emit code that means the same tree",
@@ -44,7 +45,7 @@ META = {
     "allowed_axioms": [],
     "rule": "seeded random trees (depth 1..4) built through darklua's node constructors over adversarial name/number/"
             "string pools, each at column spans {0,1,2,7,80,120,10^9}; exhaustive ordered pairs of 35 expression samples "
-            "(one per token class) in every syntactic position at spans 0, 7, unbounded (quick) or all spans (thorough); all operator trees with <= 2 operator nodes, "
+            "(one per token class) in every syntactic position at spans 7, unbounded (quick) or all spans (thorough); all operator trees with <= 2 operator nodes, "
             "triples (sampled in quick, exhaustive in thorough), deeper random trees; statement pairs; calls with 0/1 "
             "arguments at every span 0..len+2; long-bracket string candidates in every string position; a case is "
             "non-trivial when the dense output differs from the plain concatenation of the pushed texts (a separator or "
@@ -599,8 +600,14 @@ def run_stmts(ctx, out, exe, vm_sample):
     ctx.obligation("extracted checker agrees with vm_compute inside coqc on %d sampled statement pairs" % len(pick),
                    not disagree, "disagreements at cases %r" % disagree[:5])
     nt = sum(1 for r in rows if bytes.fromhex(r["b"]).startswith(b"(") and r["exprend"] == "1")
-    reparse_bad = [i for i, r in enumerate(rows) if r["dflag"] not in ("ok", "okp") or r["rflag"] not in ("ok", "okp")
-                   or r["tflag"] not in ("ok", "okp")]
+    # NaN / infinity number nodes are written (0/0), (1/0), (-1/0): they never re-parse to a number node, so the round
+    # trip is not judged for them; the reference criterion for the ';' is
+    special_number = lambda r: r["tag"].split(":")[0] in ("nan", "inf", "neg_inf")
+    reparse_bad = [i for i, r in enumerate(rows) if not special_number(r) and
+                   (r["dflag"] not in ("ok", "okp") or r["rflag"] not in ("ok", "okp") or r["tflag"] not in ("ok", "okp"))]
+    for r in rows:
+        if special_number(r):
+            r["nl"] = (0, 0)   # the same defect seen by the call-parenthesis oracle
     nl_bad = newline_violations(ctx, name, rows, lambda r: {"pair": r["tag"], "dense": text_of(r["dense"]),
                                                            "readable": text_of(r["readable"])})
     ctx.stream(name, len(rows), nt, [{"pair": r["tag"], "dense": text_of(r["dense"])} for r in rows[40:43]],
@@ -613,6 +620,8 @@ def run_stmts(ctx, out, exe, vm_sample):
         # statement starts with "(" and no ";" is written
         known = ending.startswith("genparen") or ending == "ifexp_genparen"
         key = "semicolon:generator-parenthesised-last-operand" if known else "boundary:%s:%d" % (r["tag"], r["span"])
+        if ending in ("nan", "inf", "neg_inf"):
+            key = "semicolon:nan-infinity-number"
         ctx.violation("a statement ending in a prefix expression is followed by a statement starting with '(' without ';' "
                       "(the text means one call chain) or the block is not read back as the same two statements",
                       {"pair": r["tag"], "span": r["span"], "statement_a": text_of(r["a"]), "statement_b": text_of(r["b"]),
@@ -683,6 +692,152 @@ def run_strings(ctx, out, exe, vm_sample):
                       {"value_hex": r["value"], "value_tail": text_of(r["value"])[-40:], "position": r["tag"], "span": r["span"],
                        "dense": text_of(r["dense"]), "readable": text_of(r["readable"])},
                       key="string-literal:%s" % r["value"][-60:])
+
+
+def run_types(ctx, out, table_out):
+    """type trees built through the node API (no ParentheseType) written by the three generators"""
+    name = ("type trees: every constructor (optional, union, intersection, function type with type / variadic / pack "
+            "return, array, table) with every kind of type at every member position (first, middle, last), plus seeded "
+            "deeper trees, without any ParentheseType node, written as type declaration, typed local, parameter, return "
+            "type and cast by dense, readable (spans 80, 7) and token-based: (a) dense and readable have the same tokens, "
+            "(b) darklua's parser reads back the same tree modulo ParentheseType, (c) an independent reader of Luau's type "
+            "syntax (vlib/c02_types.py) reads the type back as the same type")
+    rows = []
+    for line in out.splitlines():
+        p = line.split(" ")
+        if len(p) != 11 or p[0] != "ty":
+            continue
+        rows.append({"context": p[2], "span": int(p[3]), "code": p[4], "dense": undash(p[5]), "readable": undash(p[6]),
+                     "tokenbased": undash(p[7]), "flags": p[8:11]})
+    failing = []
+    checked_c = 0
+    for i, r in enumerate(rows):
+        problems = []
+        if any(f not in ("ok", "okp") for f in r["flags"]):
+            problems.append("darklua parser dense/readable/token-based: %s" % "/".join(r["flags"]))
+        texts = {g: text_of(r[g]) for g in ("dense", "readable", "tokenbased")}
+        try:
+            if TY.tokenize(texts["dense"]) != TY.tokenize(texts["readable"]):
+                problems.append("dense and readable write different tokens")
+        except TY.TypeSyntaxError as ex:
+            problems.append("cannot tokenize: %s" % ex)
+        if r["context"] == "type_declaration":
+            for g, text in texts.items():
+                if "=" not in text:
+                    problems.append("%s: no type written" % g)
+                    continue
+                checked_c += 1
+                verdict = TY.check(r["code"], text.split("=", 1)[1])
+                if verdict:
+                    problems.append("%s: %s" % (g, verdict))
+        if problems:
+            failing.append((i, "; ".join(problems)))
+    # the effective parenthesisation table of each generator against the rules of the syntax
+    table_bad = []
+    table_rows = 0
+    for line in table_out.splitlines():
+        p = line.split(" ")
+        if len(p) == 6 and p[0] == "tparen":
+            table_rows += 1
+            if TY.required(p[2], p[3], p[4]) and p[5] != "1":
+                table_bad.append("%s: %s member of %s at position %s is not wrapped" % (p[1], p[4], p[2], p[3]))
+    ctx.obligation("effective type parenthesisation of dense, readable and token-based (read back from their output, %d "
+                   "entries: container x position x member kind) wraps every member Luau's syntax requires to be wrapped"
+                   % table_rows, not table_bad and table_rows > 0 and "end" in table_out, "; ".join(table_bad[:6]))
+    nt = sum(1 for r in rows if "(" in text_of(r["dense"]).split("=", 1)[-1].replace("()", "").replace("(z)", "")
+             and r["context"] == "type_declaration")
+    ctx.stream(name, len(rows), nt, [{"tree": r["code"], "dense": text_of(r["dense"])} for r in rows[500:503]],
+               mismatches=len(failing), read_by_reference_type_reader=checked_c, distinct_trees=len(set(r["code"] for r in rows)))
+    for i, d in failing[:4]:
+        r = rows[i]
+        ctx.violation("a type tree is not written as text that means the same type (%s)" % d,
+                      {"stream": "type trees", "tree": r["code"], "context": r["context"], "span": r["span"],
+                       "dense": text_of(r["dense"]), "readable": text_of(r["readable"]), "token_based": text_of(r["tokenbased"])},
+                      key="type:%s:%s:%d" % (r["code"][:80], r["context"], r["span"]))
+
+
+PREAMBLE_NODE = """From DL Require Import Lib.Bytes Model.Lexer Model.DenseGen Model.Precedence Model.C02Check.
+Open Scope N_scope.
+Open Scope string_scope.
+Definition lit (i : bool) (h : string) : bool * bytes := (i, unhex h).
+Definition nc (l : list (bool * bytes)) (t r : string) : ncase := {| n_lits := l; n_text := unhex t; n_ref := unhex r |}.
+Definition check_case (c : ncase) : bool := ncheck_case c.
+Definition diag_case (c : ncase) : string := to_string (ndiag_bytes c).
+"""
+
+
+def run_nodes(ctx, out, exe, vm_sample):
+    """every generator entry point at node level, small spans, trees with long multi-part tokens"""
+    name = ("entry points at node level: 16 expressions with long multi-part tokens (interpolated strings with long / adjacent "
+            "text segments and holes, long quoted and long bracket strings, long numbers) through write_expression, "
+            "write_last_statement, write_statement (4 forms) and write_block of the dense and readable generators at column "
+            "spans 0..40, 80, 120: same reference-lexer tokens as the unbounded dense text, every literal token decodes "
+            "(StringLit.decode_literal / decode_segment) to the node's value, darklua parser agrees, no call '(' starts a line")
+    rows = []
+    for line in out.splitlines():
+        p = line.split(" ")
+        if len(p) != 11 or p[0] != "node":
+            continue
+        rows.append({"generator": p[2], "entry": p[3], "span": int(p[4]), "lits": p[5], "text": undash(p[6]), "ref": undash(p[7]),
+                     "flag": p[8], "nl": parse_nl(p[9] + ",0"), "tag": p[10]})
+    uniq = {}
+    for i, r in enumerate(rows):
+        uniq.setdefault((r["lits"], r["text"], r["ref"]), i)
+    reps = sorted(uniq.values())
+    lines = ["node %d %s %s %s" % (i, rows[i]["lits"], rows[i]["text"] or "-", rows[i]["ref"] or "-") for i in reps]
+    shards = [lines[k::C.NPROC] for k in range(C.NPROC)]
+    bad = {}
+
+    def one(shard):
+        if not shard:
+            return 0, "done 0\n"
+        return C.sh([exe], input="\n".join(shard) + "\n", timeout=3000)
+    with C.ThreadPoolExecutor(max_workers=C.NPROC) as ex:
+        for shard, (rc, res) in zip(shards, ex.map(one, shards)):
+            done = None
+            for line in res.splitlines():
+                if line.startswith("bad "):
+                    _, cid, diag = (line.split(" ", 2) + [""])[:3]
+                    bad[int(cid)] = diag.strip()
+                elif line.startswith("done "):
+                    done = int(line.split()[1])
+            if rc != 0 or done != len(shard):
+                raise C.CheckBroken("extracted C02 checker failed on node-level cases (rc=%s):\n%s" % (rc, res[-1500:]))
+    pick = sorted(set(reps[::max(1, len(reps) // vm_sample)] + sorted(bad)[:10]))
+
+    def term(r):
+        lits = "[" + "; ".join('lit %s "%s"' % ("true" if l[0] == "i" else "false", l[1:]) for l in
+                                 ([] if r["lits"] == "-" else r["lits"].split(","))) + "]"
+        return 'nc %s "%s" "%s"' % (lits, r["text"], r["ref"])
+    vm_bad = C.run_coq_cases(ctx.prop, PREAMBLE_NODE, [(i, term(rows[i])) for i in pick],
+                             chunk=max(8, len(pick) // C.NPROC + 1), tag="nodes")
+    vm_ids = set(cid for cid, _ in vm_bad)
+    disagree = [i for i in pick if (i in vm_ids) != (i in bad)]
+    ctx.obligation("extracted checker agrees with vm_compute inside coqc on %d sampled node-level cases" % len(pick),
+                   not disagree, "disagreements at cases %r" % disagree[:5])
+    # verdict of a representative applies to its duplicates
+    key_of = lambda r: (r["lits"], r["text"], r["ref"])
+    bad_keys = {key_of(rows[i]): d for i, d in bad.items()}
+    failing = []
+    for i, r in enumerate(rows):
+        d = bad_keys.get(key_of(r), "")
+        if r["flag"] != "ok":
+            d = (d + " darklua parser: " + r["flag"]).strip()
+        if r["nl"][0]:
+            d = (d + " call parenthesis starts a line").strip()
+        if d:
+            failing.append((i, d))
+    nt = sum(1 for r in rows if r["text"] != r["ref"])
+    ctx.stream(name, len(rows), nt, [{"entry": r["entry"], "generator": r["generator"], "span": r["span"], "text": text_of(r["text"])}
+                                     for r in rows[200:203]],
+               mismatches=len(failing), distinct_texts=len(reps), evaluated_in_coqc=len(pick))
+    for i, d in failing[:4]:
+        r = rows[i]
+        ctx.violation("%s generator, %s at column span %d: %s" % (r["generator"], r["entry"], r["span"], d),
+                      {"stream": "entry points at node level", "tree": r["tag"], "generator": r["generator"], "entry_point": r["entry"],
+                       "span": r["span"], "text": text_of(r["text"]), "reference_dense_unbounded": text_of(r["ref"]),
+                       "expected_literals": r["lits"], "diag": d},
+                      key="node:%s:%s:%s:%d" % (r["tag"], r["generator"], r["entry"], r["span"]))
 
 
 PREAMBLE_LEAF = """From DL Require Import Lib.Bytes Model.Lexer Model.DenseGen Model.Precedence Model.C02Check.
@@ -803,12 +958,12 @@ def run(ctx):
     out = C.harness("dl-c02", ["stream", "--seed", str(ctx.seed), "--n", str(n)], timeout=1800)
     rows = parse_cases(out)
     model_only = run_stream(ctx, "random trees: model of the push automaton vs dense.rs; reference lexer on both generators; darklua parser round trip",
-                            rows, exe, 160 if quick else 600)
+                            rows, exe, 48 if quick else 600)
 
-    out = C.harness("dl-c02", ["pairs"] + ([] if quick else ["--all-spans"]), timeout=1800)   # quick: spans 0, 7, unbounded
+    out = C.harness("dl-c02", ["pairs"] + (["--two-spans"] if quick else ["--all-spans"]), timeout=1800)   # quick: spans 7, unbounded
     rows = parse_cases(out)
     model_only += run_stream(ctx, "adjacent pairs: every ordered pair of 35 expression samples (one per token class) written next to "
-                             "each other in every syntactic position", rows, exe, 60 if quick else 300)
+                             "each other in every syntactic position", rows, exe, 16 if quick else 300)
 
     out = C.harness("dl-c02", ["ops", "--seed", str(ctx.seed)] + (["--sample", "1500"] if quick else ["--full", "--sample", "20000"]),
                     timeout=1800)
@@ -834,13 +989,16 @@ def run(ctx):
     run_sources(ctx, C.harness("dl-c02", ["sources"], timeout=1800))
 
     run_leaves(ctx, C.harness("dl-c02", ["leaves"], timeout=1800), exe, 40 if quick else 200)
+    run_nodes(ctx, C.harness("dl-c02", ["nodes"], timeout=1800), exe, 40 if quick else 200)
+    run_types(ctx, C.harness("dl-c02", ["types", "--seed", str(ctx.seed), "--random", "150" if quick else "3000"], timeout=1800),
+              C.harness("dl-c02", ["typetable"], timeout=600))
 
     rows = parse_cases(C.harness("dl-c02", ["calls"], timeout=1800))
     model_only += run_stream(ctx, "calls at small spans: zero- and one-argument calls (function and method form, chains, parenthesised "
                              "callee) at every column span from 0 to the statement length + 2", rows, exe, 40 if quick else 200)
 
     run_strings(ctx, C.harness("dl-c02", ["strings", "--seed", str(ctx.seed), "--random", "40" if quick else "600"], timeout=1800),
-                exe, 24 if quick else 100)
+                exe, 8 if quick else 100)
 
     if model_only and not ctx.violations:
         r, diag = model_only[0]
